@@ -12,7 +12,12 @@ CFG = {
                   "into Failed leave no pairs, candidates, selection, pending transactions or caches. The clause 'no (local, "
                   "remote) pair is listed twice' is FALSE for model and code (C06_dup_pair_witness; replayed on the real agent "
                   "in corpus/C06/agent.ops): it is proved for all histories that do not signal a peer-reflexive candidate "
-                  "with a non-empty related address (C06_no_dup_pair_partial).",
+                  "with a non-empty related address (C06_no_dup_pair_partial). Candidates carry the literal form of their address "
+                  "(canonical / IPv4-mapped or expanded): an inbound message from the canonical address of a listed remote candidate "
+                  "never adds a remote candidate whatever literal it was signalled with (C06_known_source_no_new_remote); "
+                  "deduplication and peer-reflexive supersession hold only up to the literal, because transportAddressEqual compares "
+                  "Address() strings: full statements refuted on witnesses replayed on the real agent, strongest true forms proved "
+                  "(C06_remotes_dedup_canonical_partial, C06_prflx_superseded_partial; notes/C06-forms.md).",
     "level_note": "The theorems are about the model; the model is tied to agent.go/selection.go by the differential "
                   "correspondence of component `agent` (real agents under testing/synctest vs. the compiled model, every "
                   "operation's full canonical state compared), so a change of the code that breaks a clause shows up as a "
@@ -26,7 +31,8 @@ CFG = {
     "components": [{"component": "agent", "args": "focus=C06", "session_start": "new", "trivial_regex": "^(bad-op.*|ended.*)$", "shrink_s": 40}],
     "rule": "quick: the session generator of component `agent` (boundary configurations first, then random interleavings of "
             "local arrival, remote trickle with duplicates, prflx-then-signalled and signalled-then-prflx, inbound checks from "
-            "unknown sources, filter, restart, failure, close); corpus/C06/agent.ops (duplicate-pair witness, double "
+            "unknown sources, filter, restart, failure, close; in half of the sessions a third of the signalled remote candidates "
+            "use a non-canonical address literal: the same address in both forms, before and after a prflx discovery); corpus/C06/agent.ops (duplicate-pair witness, double "
             "supersession) is replayed first. Distinct = distinct (operation, output) lines; non-trivial = the output is a "
             "full agent state digest (not bad-op / ended).",
     "translated": [],
@@ -34,6 +40,7 @@ CFG = {
                      "the harness digest prints checklist, candidate lists, selection, pending count after every operation"],
     "assumptions": ["theorems quantify over all event lists from a fresh agent (Init: empty checklist, candidate lists, caches; "
                     "nothing selected or nominated; configuration, credentials, role and counters arbitrary)",
-                    "C06_no_dup_pair_partial: no addRemote event carries a peer-reflexive candidate with a non-empty related address (evOK)"],
+                    "C06_no_dup_pair_partial: no addRemote event carries a peer-reflexive candidate with a non-empty related address (evOK)",
+                    "C06_remotes_dedup_canonical_partial: every addRemote event carries a canonical address literal (evCanon)"],
     "technique": "invariant + induction over event lists; handlers as chains of atomic transitions",
 }
